@@ -638,7 +638,7 @@ func runPrefix(hid int, p prefix, rng *rand.Rand, rec *Recorder, reps int) {
 		rec.Add(evBody(ev), fmt.Sprintf("history %d step %d", hid, ev.I))
 	}
 	lvl := p.Lvl[0]
-	for _, op := range p.Hist {
+	for opIdx, op := range p.Hist {
 		ev := &stepEvent{}
 		func() {
 			defer func() {
@@ -685,6 +685,26 @@ func runPrefix(hid int, p prefix, rng *rand.Rand, rec *Recorder, reps int) {
 			}
 		}()
 		emit(op, ev)
+		// prime whatever a query might remember: the score, severity and encoding queries are asked once right after the
+		// first Decode when further operations follow (a value kept from before a later field reset or failed decode
+		// would then be served by the closing battery)
+		if op["op"] == "decode" && opIdx < len(p.Hist)-1 {
+			for _, c := range allCalls(vars) {
+				if c.q != "Score" && c.q != "Severity" && c.q != "Encode" {
+					continue
+				}
+				qev := &stepEvent{}
+				func() {
+					defer func() {
+						if r := recover(); r != nil {
+							qev.Panic = asciiSafe(fmt.Sprint(r))
+						}
+					}()
+					qev.Res = append(qev.Res, vars[c.v].view(c.via).query(c.q))
+				}()
+				emit(map[string]any{"op": "query", "x": c.v, "via": string(c.via), "q": c.q}, qev)
+			}
+		}
 	}
 	// the battery: every query on every variable through every accessor, several times, seeded order
 	type call struct {
@@ -957,14 +977,46 @@ func cmdOrders(args []string) {
 	for k, idx := range order {
 		it := items[idx]
 		ev := decodeFull(it.fam, it.lvl, it.s, true)
-		if it.fam == "v3" && ev.Ok && k%3 == 0 {
-			buildRepEvent(it.lvl, "ja", it.s) // interleave report construction
+		if it.fam == "v3" && ev.Ok {
+			// the report built without any option (the documented default) must not depend on which languages
+			// earlier reports of this process were asked for
+			ev.Rep0 = defaultReportDigest(it.lvl, it.s)
+			if k%3 == 0 {
+				buildRepEvent(it.lvl, []string{"ja", "en", "fr", "ja-JP"}[(k/3)%4], it.s) // interleave report construction
+			}
 		}
 		rec.Add(evBody(oe{"ord1", idx, it.fam, string(it.lvl), asciiSafe(it.s), ev}), "order "+*ord)
 	}
 	s := rec.Flush(flagOut, "orders-"+*ord, 1)
 	s.Extra = map[string]any{"vectors": len(items), "order": *ord}
 	printSummary(s)
+}
+
+// defaultReportDigest: a few fields of report.New<Level>(metrics) with no option given
+func defaultReportDigest(lvl byte, s string) (out string) {
+	defer func() {
+		if r := recover(); r != nil {
+			out = "panic " + asciiSafe(fmt.Sprint(r))
+		}
+	}()
+	o, err := v3Decode(lvl, s)
+	if err != nil {
+		return "decode error"
+	}
+	var b *report.BaseReport
+	switch lvl {
+	case 'B':
+		b = report.NewBase(o.b)
+	case 'T':
+		r := report.NewTemporal(o.t)
+		b = r.BaseReport
+		out = r.EName + "=" + r.EValue + ";" + r.SeverityName + "=" + r.SeverityValue + ";"
+	default:
+		r := report.NewEnvironmental(o.e)
+		b = r.BaseReport
+		out = r.CRName + "=" + r.CRValue + ";" + r.SeverityName + "=" + r.SeverityValue + ";"
+	}
+	return asciiSafe(out + b.AVName + "=" + b.AVValue + ";" + b.BaseMetrics + ";" + b.SeverityName + "=" + b.SeverityValue + ";" + b.BaseScore)
 }
 
 func colonShift(rng *rand.Rand, s string) string {
